@@ -252,6 +252,12 @@ func RandomCase(r *gen.RNG, maxLen int) *Case {
 	if r.Chance(1, 12) {
 		st.vertical = true
 		c.ParaVer = true
+		if r.Bool() {
+			// orientation flags, as Segmenter.Split sets them on the runs (and an application
+			// may or may not set them on the paragraph direction)
+			c.RunOrient = uint8(1 + r.Intn(3))
+			c.ParaOrient = uint8(r.Intn(3))
+		}
 	}
 	c.Runs = build(c.Text, st)
 	randomConfig(r, c, totalPx(c.Runs))
